@@ -1262,3 +1262,26 @@ fn unescape_str(s: &str, span: Span) -> ParseResult<String> {
         Ok(unescaped)
     }
 }
+
+/// Verification hooks (C06): the literal decoder on its own, and
+/// `unescape_f_string_part` on a text part whose span starts at byte 0
+/// (an associated function because this module is private).
+#[cfg(feature = "verif-hooks")]
+impl Parser<'_, '_> {
+    pub fn verif_c06_literal(&mut self) -> ParseResult<Meta<Literal>> {
+        self.literal()
+    }
+
+    pub fn verif_c06_unescape_f_string_part(
+        text: &str,
+    ) -> ParseResult<String> {
+        unescape_f_string_part(
+            text,
+            Span {
+                file: 0,
+                start: 0,
+                end: text.len(),
+            },
+        )
+    }
+}
